@@ -378,6 +378,7 @@ var explains = map[string]map[string]bool{
 	"absent-collection-minlen":                          {"rejected:invalid_length": true, "misnamed:invalid_length": true, "refused:invalid_length": true},
 	"both-exclusive-bounds":                             {"leaked": true, "accepted": true},
 	"required-cookie":                                   {"leaked": true},
+	"required-query-map-absent":                         {"leaked": true},
 	"path-value-with-slash":                             {"rejected:fault": true, "misnamed:fault": true},
 	"body-attr-absent":                                  {"panic": true, "rejected:*": true, "misnamed:*": true, "mismatch": true},
 	"required-object-outside-view":                      {"panic": true},
@@ -398,7 +399,7 @@ var explains = map[string]map[string]bool{
 	"header-array-multi":                                {"refused:*": true, "accepted": true, "mismatch:header-array": true},
 }
 
-var tagOrder = []string{"doc:catch-all-path-spans-segments", "doc:error-media-type", "doc:set-cookie-header-schema", "doc:header-mapped-attribute-in-body-schema", "doc:viewed-result-requires-attribute-outside-view", "doc:responses-sharing-status", "schema:map-key-elem-validation-not-documented", "schema:non-string-key-map-is-free-form", "schema:null-body", "schema:request-body-documented-required", "schema:map-length-not-documented", "schema:bytes-length-on-base64-text", "recursive-result-type", "tagged-response-header-absent", "required-object-outside-view", "both-exclusive-bounds", "required-cookie", "body-attr-absent", "path-value-with-slash", "header-array-multi", "absent-collection-minlen"}
+var tagOrder = []string{"doc:catch-all-path-spans-segments", "doc:error-media-type", "doc:set-cookie-header-schema", "doc:header-mapped-attribute-in-body-schema", "doc:viewed-result-requires-attribute-outside-view", "doc:responses-sharing-status", "schema:map-key-elem-validation-not-documented", "schema:non-string-key-map-is-free-form", "schema:null-body", "schema:request-body-documented-required", "schema:map-length-not-documented", "schema:bytes-length-on-base64-text", "recursive-result-type", "tagged-response-header-absent", "required-object-outside-view", "both-exclusive-bounds", "required-cookie", "required-query-map-absent", "body-attr-absent", "path-value-with-slash", "header-array-multi", "absent-collection-minlen"}
 
 // mkKey builds a violation key. class is the coarse finding class ("rejected:<name>", "leaked",
 // "misnamed:<name>", "refused:<name>", "accepted", "panic", "mismatch:..."). When the input belongs
